@@ -297,7 +297,17 @@ def mask_case(p, res):
                     arg.logical_not_()
                 else:
                     arg[:] = [not b_ for b_ in arg]
-                check_encoder(enc, N, k, info_ref, fz, pi, cfg + ",mask overwritten afterwards", res, msgs)
+                ok_enc = check_encoder(enc, N, k, info_ref, fz, pi, cfg + ",mask overwritten afterwards", res, msgs)
+                # decoders on the user-supplied mask (masks need not satisfy the partial order of the 5G sets): noise-free LLRs give the message back
+                if ok_enc and form == "list":
+                    from kaira.models.fec.decoders import BeliefPropagationPolarDecoder, SuccessiveCancellationDecoder
+                    for regime in ("sum_product", "min_sum"):
+                        try:
+                            _clean(SuccessiveCancellationDecoder(enc, regime=regime), enc, N, k, msgs, f"{cfg},{regime}", "sc", res)
+                            if not pi and N >= 4 and mk % 5 == 1:
+                                _clean(BeliefPropagationPolarDecoder(enc, bp_iters=12, regime=regime), enc, N, k, msgs, f"{cfg},{regime}", "polar-bp", res)
+                        except Exception as e:  # noqa: BLE001
+                            res.viol("sc", f"{cfg},{regime}", "raises", f"decoder on a user mask: {type(e).__name__}: {str(e)[:160]}")
     res.sample({"N": N, "masks": len(masks)})
 
 
